@@ -548,6 +548,33 @@ func c01(c *Ctx) {
 		r.Check("flushData:process-callback-found", nPF == 1, fd.Pos(), fmt.Sprintf("%d Aggregator.Process calls in flushData", nPF))
 		r.Check("flushData:process-then-wait", proc != nil && waitCall != nil && instrDominates(proc, waitCall), fd.Pos(), "flushData calls the Wait returned by Process")
 		r.Check("flushData:wait-before-sendwait", waitCall != nil && sendWait != nil && instrDominates(waitCall, sendWait), fd.Pos(), "process wait precedes the send WaitGroup wait")
+		// the aggregator hands its whole aggregate to the callback: every call of Process's parameter gets the
+		// receiver's metricMap itself (a filtered or rebuilt copy would leave datapoints out of the flush that
+		// Reset then clears)
+		if ap := w.Func("pkg/statsd", "(*MetricAggregator).Process"); ap == nil {
+			r.Unresolved("(*MetricAggregator).Process")
+		} else if len(ap.Params) == 2 {
+			c.SawFunc(FuncName(ap))
+			n := 0
+			for _, g := range WithAnon(ap) {
+				for _, cl := range callsIn(g) {
+					if cl.Common().IsInvoke() || staticCallee(cl) != nil || ptrOrigin(cl.Common().Value) != ssa.Value(ap.Params[1]) {
+						continue
+					}
+					n++
+					ok := false
+					if len(cl.Common().Args) == 1 {
+						if ld, isLd := ptrOrigin(cl.Common().Args[0]).(*ssa.UnOp); isLd && ld.Op == token.MUL {
+							if fa, isFA := ld.X.(*ssa.FieldAddr); isFA && fieldName(fa.X.Type(), fa.Field) == "metricMap" && ptrOrigin(fa.X) == ssa.Value(ap.Params[0]) {
+								ok = true
+							}
+						}
+					}
+					r.Check("Process:callback-gets-the-aggregate", ok, cl.Pos(), "Process passes a.metricMap itself to the callback (got "+pathOf(cl.Common().Args[0])+")")
+				}
+			}
+			r.Check("Process:calls-the-callback", n >= 1, ap.Pos(), fmt.Sprintf("%d calls of the ProcessFunc parameter", n))
+		}
 	})
 
 	c.Rule("C01.R3", "Reset carries identity (Timestamp, Source, Tags) and no data; gauges untouched", 20, func(r *Rule) {
